@@ -15,6 +15,10 @@ class PathLimit(Exception):
     pass
 
 
+class PathEnd(Exception):
+    """the path ends here without reaching a function exit (e.g. after the inductive step of a loop invariant)"""
+
+
 class Obligation:
     def __init__(self, label, kind, pc, goal, site=None, meta=None):
         self.label, self.kind, self.pc, self.goal, self.site = label, kind, list(pc), goal, site
